@@ -995,6 +995,7 @@ class FactWalker:
             return r
         self.relevant = relevant_memo
         self.cut = set(body.back_edges()) if cut_back_edges else set()
+        self.cut_back = bool(cut_back_edges)
         self._edges = {}
         self._kills = {}
         self._const_assign = {}
@@ -1090,7 +1091,7 @@ class FactWalker:
         return self._loopk[h]
 
     def step(self, bb, facts):
-        if bb in self.b.loops() and facts:
+        if self.cut_back and bb in self.b.loops() and facts:
             # entering a loop with its back edges cut: forget what the loop may change
             lk = self.loop_kills(bb)
             if lk:
